@@ -219,7 +219,7 @@ func c32Gapped(lines []string, label string) bool {
 func init() {
 	eng.Register(&eng.Check{
 		ID: "C32", Level: "exploration", HangBound: 900 * time.Second,
-		QuickBudget: 110 * time.Second, ThoroughBudget: 24 * time.Minute,
+		QuickBudget: 300 * time.Second, ThoroughBudget: 24 * time.Minute,
 		Rule: "diagram = object a with (shape in all 18 plain shapes + class, sql_table, text, code, image, sequence_diagram, hierarchy) x (label in {none, x, hello, é, 'a b', héllo}) x (context in 15: none, connections in every arrow direction with and without labels, arrowhead shape+labels, self loop, container with crossing connection, multiple, direction right, inside/outside label positions, a as container, two opposite connections, animated connection to a labelled circle); laid out by ELK through d2lib.Compile as d2cli does for txt output, rendered by d2ascii in both character sets and scales {default, 0.5, 2}; non-trivial = the diagram compiled and was rendered",
 		Assumptions: []string{
 			"'label characters' = every rune of any shape label, class/table member text, connection label or arrowhead label of the diagram; in the standard charset every other output rune must be < 0x80",
